@@ -435,6 +435,13 @@ def build_class(recorder, ctx, world, cls_params, has_extractor, opt_sets, class
                 seen = prev.get('seen')
                 if seen and seen[0] == 'val':
                     n += mutate_in_place(seen[1])
+                elif seen and seen[0] == 'exc' and ctx.replaying:
+                    # replayed code may also tamper with a recorded exception it caught: later reads must not see it
+                    try:
+                        seen[1].MUTATED = 'MUTATED'
+                        n += 1
+                    except Exception:
+                        pass
             # sent payloads are only mutated while recording with copy-on-interception (during a replay nothing copies
             # what the code sends, and the properties assume it is not mutated after capture)
             if not ctx.replaying:
@@ -509,10 +516,11 @@ class Driver(object):
         if t == 'val':
             return ('val', self._token_of_value(obj))
         if t == 'exc':
+            tampered = '*mutated' if getattr(obj, 'MUTATED', None) is not None else ''
             for name, cls in EXC.items():
                 if type(obj) is cls:
-                    return ('exc', name)
-            return ('exc', type(obj).__name__)
+                    return ('exc', name + tampered)
+            return ('exc', type(obj).__name__ + tampered)
         if t == 'abort':
             if isinstance(obj, INTERRUPT_TYPES):
                 return ('int', 'BI')
